@@ -5,12 +5,19 @@ exactly representable); `α := Nat` (the bit pattern), so equality is decidable.
 namespace CryoCat.Drv.C11
 open Lean CryoCat CryoCat.C11
 
-/-- numpy `astype(t)` on the values the generator produces: to float32 = IEEE round-to-nearest-even;
-to float64 exact; to int16/int8 only ever applied to integral in-range values (exact) -/
+/-- numpy `astype(t)` of a value held as binary64 (every float32/int16/int8 value is one): to float32 =
+IEEE round-to-nearest-even; to float64 exact; to int16/int8 = C conversion of the value itself, i.e.
+truncation toward zero (2.99999999 ↦ 2, −7.99999999 ↦ −7, −0.5 ↦ 0), applied DIRECTLY to the binary64
+value — never through float32.  Only finite in-range values are generated for integer casts
+(out-of-range / NaN are undefined behaviour in C). -/
 def cast (t : DType) (b : Nat) : Nat :=
   match t with
   | .f32 => bitsOfFloat (floatOfBits b).toFloat32.toFloat
-  | _ => bitsOfFloat (floatOfBits b)
+  | .f64 => bitsOfFloat (floatOfBits b)
+  | _ =>
+    let v := floatOfBits b
+    let r := if v < 0.0 then v.ceil else v.floor
+    if r == 0.0 then bitsOfFloat 0.0 else bitsOfFloat r
 
 /-- `x * (-1)` in the voxel type: IEEE sign flip for floats (−0.0 exists), two's-complement
 negation for integers (−0 = 0; the most negative value is never generated) -/
@@ -33,6 +40,8 @@ def parseArr (j : Json) : Option (Arr Nat × DType) := do
   let data ← getNats? j "data"
   let dt ← getDT? j "dtype"
   if sh.size ≠ 3 then none else
+  -- an array description whose payload is not d0*d1*d2 long is no array (`Arr.WF` is a hypothesis of every theorem)
+  if data.size ≠ sh[0]! * sh[1]! * sh[2]! then none else
   some ({ d0 := sh[0]!, d1 := sh[1]!, d2 := sh[2]!, data := data }, dt)
 
 def parseKind : String → Option Kind
@@ -69,13 +78,15 @@ def parseFS (j : Json) : Option (FS Nat) := do
 def handle (j : Json) : Json :=
   match getStr? j "op" with
   | some "roundtrip" =>
-    match (j.getObjVal? "arr").toOption >>= parseArr, getStr? j "name", getBool? j "transpose" with
-    | some (a, src), some name, some tr =>
+    match (j.getObjVal? "arr").toOption >>= parseArr, getStr? j "name" with
+    | some (a, src), some name =>
+      -- an absent keyword = the call omits it: the model takes the default of the CURRENT signature
+      let tr := getBool? j "transpose"
       let dataType := getOptDT j "data_type"
       let rdt := getOptDT j "rdata_type"
-      let rtr := (getBool? j "rtranspose").getD true
+      let rtr := getBool? j "rtranspose"
       let rname := (getStr? j "rname").getD name
-      match write cast dflt a src name.toList tr dataType with
+      match writeKw cast dflt a src name.toList tr dataType with
       | .error e => errJson e
       | .ok f =>
         -- verified checkers on what the real code produced (optional fields "file", "back")
@@ -88,20 +99,22 @@ def handle (j : Json) : Json :=
           | some (b, bdt) => [("check_back", Json.bool (checkSameVoxels dflt convB a b)),
                               ("check_back_dtype", Json.bool (decide (bdt = rdt.getD (outDType dataType src))))]
           | none => []
-        let back := match read cast dflt rname.toList f rtr rdt with
+        let back := match readKw cast dflt rname.toList f rtr rdt with
           | .ok (b, dt) => arrJson b dt
           | .error e => errJson e
         Json.mkObj ([("file", fileJson f), ("arr", back)] ++ chkW ++ chkB)
-    | _, _, _ => err "bad-args"
+    | _, _ => err "bad-args"
   | some "convert" =>
-    match getStr? j "which", parseFS j, getStr? j "map_name", getBool? j "invert", getBool? j "overwrite" with
-    | some which, some fs, some mapName, some inv, some ow =>
+    match getStr? j "which", parseFS j, getStr? j "map_name" with
+    | some which, some fs, some mapName =>
+      let inv := getBool? j "invert"
+      let ow := getBool? j "overwrite"
       let cfg := if which = "em2mrc" then em2mrcCfg else mrc2emCfg
       let outOpt := getOptName j "output_name"
       let neg : Nat → Nat := match fs.lookup mapName.toList with
         | some fin => negIn fin.dtype
         | none => negIn .f32
-      match convert cfg cast dflt neg fs mapName.toList inv ow outOpt with
+      match convertKw cfg cast dflt neg fs mapName.toList inv ow outOpt with
       | .error e => errJson e
       | .ok fs' =>
         let outN := match outName cfg mapName.toList outOpt with | .ok n => n | .error _ => []
@@ -109,15 +122,14 @@ def handle (j : Json) : Json :=
         let chk : List (String × Json) :=
           match fs.lookup mapName.toList, (j.getObjVal? "file").toOption >>= parseFile with
           | some fin, some fout =>
-            let conv : Nat → Nat := if inv then neg else id
-            [("check_convert", Json.bool (checkSameFileVoxels conv fin fout)),
-             ("check_convert_dtype", Json.bool (decide (fout.dtype = fin.dtype)))]
+            -- the statement: an omitted `invert` means no inversion (documented default)
+            [("check_convert", Json.bool (checkConverted cast neg (inv.getD false) fin fout))]
           | _, _ => []
         match fs'.lookup outN with
         | some f => Json.mkObj ([("out_name", Json.str (String.ofList outN)), ("file", fileJson f),
                                 ("names", Json.arr (fs'.map (fun e => Json.str (String.ofList e.1))).toArray)] ++ chk)
         | none => err "model-lost-output"
-    | _, _, _, _, _ => err "bad-args"
+    | _, _, _ => err "bad-args"
   | some "names" =>
     match getStr? j "name" with
     | some n =>
